@@ -876,3 +876,36 @@ Proof. vm_compute. repeat split. Qed.
 Theorem C15_atoi_itoa : forall n, n < 10 ^ 40 -> atoi (itoa n) = Some n.
 Proof. exact atoi_itoa. Qed.
 Print Assumptions C15_atoi_itoa.
+
+(* the same for Referrers (C15_filter with net/url as modelled): the referrers of the requested
+   artifact type, once, in order, whether or not the registry filters *)
+Theorem C15_filter_concrete :
+  forall (sch host P0 : str) (segs0 : list str),
+    clean_path P0 segs0 ->
+    forallb path_char P0 = true ->
+    forallb printable P0 = true ->
+    forall (L : list item) (cap : nat) (ds : nat -> decision)
+           (trailer : nat -> str) (vis : item -> bool) (cu : cursor) (c : cfg),
+    cursor_ok cu ->
+    match cu with
+    | CLast => True
+    | CToken k s => Forall byte_ok k /\ Forall byte_ok s
+    end ->
+    (forall x : str, In x (map fst L) -> Forall byte_ok x) ->
+    (forall i : nat, all_vs (d_extra (ds i)) /\ query_ok (d_extra (ds i))) ->
+    (c_n c < 10 ^ 40)%Z ->
+    forall fuel : nat,
+    c_kind c = KReferrers ->
+    NoDup (map fst L) ->
+    (forall it : item, In it L -> fst it <> []) ->
+    Forall byte_ok (c_at c) ->
+    (forall i : nat, (Z.of_N (d_doc_len (ds i)) <= eff_limit (c_limit c))%Z) ->
+    (forall i : nat, qget k_at (d_extra (ds i)) = None) ->
+    (length L < fuel)%nat ->
+    let t := loop (reg_serve KReferrers cu (fun _ p => p) vis L cap ds render_c trailer) (resolve_c sch host)
+                  (fun _ => false) c fuel 0 0 (mkUrl P0 (referrers_query (c_at c))) [] in
+    t_out t = Done /\
+    concat (t_pages t) = filter_referrers (filter vis L) (c_at c) /\
+    (length (t_reqs t) <= S (length L))%nat.
+Proof. exact concrete_referrers. Qed.
+Print Assumptions C15_filter_concrete.
